@@ -503,6 +503,15 @@ func init() {
 				items = append(items, CrashItem{Base: srcs[0].base, From: p, To: p + 1, FastSync: mode})
 			}
 		}
+		// a refused event before the crash: an adversary holding validator 1's key sends node 0 a correctly signed
+		// event with a wrong index at seed position 14; every (3rd) later crash point
+		{
+			dev := []sched.Dev{{Pos: 14, Alt: sched.Action{K: "BX", A: 0, B: 1}, Ins: true}}
+			items = append(items, CrashItem{Base: srcs[0].base, Clean: true, Devs: dev})
+			for p := 60; p <= srcs[0].writes; p += fsStride {
+				items = append(items, CrashItem{Base: srcs[0].base, From: p, To: p + 1, Devs: dev})
+			}
+		}
 		// crash-model validation with real SIGKILLs
 		kstride := 23
 		if th {
@@ -560,7 +569,7 @@ func init() {
 			samples = append(samples, s)
 		}
 		cov["samples"] = samples
-		cov["rule"] = "node 0 runs on a BadgerStore behind a wrapper counting its durable store writes (SetEvent/SetRound/SetBlock/SetFrame/SetPeerSet); for every write index p of the stated histories (static seed: every p; dynamic seeds: the stated stride) the node is cut before write p (all in-memory objects abandoned), its directory reopened by a fresh Node with Bootstrap=true through the real Init -> Hashgraph.Bootstrap -> setHeadAndSeq with a reset application, plus a clean close after the whole seed. Oracle: every block delivered before the cut is re-delivered identically and in order; the node knows exactly the events whose SetEvent had returned; head/seq = last persisted self-event; after a fair continuation its next self-event has index seq+1, is accepted by all, no two events of it share a height, and the C01/C02 monitors stay green; then the node is stopped cleanly and bootstrapped a second time and must know everything it knew before that stop (events, delivered blocks, head), continue without a self-fork. The crash points of the first history are repeated with fast-sync enabled at the restart (after Init the node is CatchingUp and runs the real Node.fastForward once: against its peers as they are, and with no peer answering); when no anchor is adopted the node must go on Babbling from its database and the whole oracle applies (restarts that do adopt an anchor are counted and only monitored for C01/C02). Crash-model validation: the same history in a child process that SIGKILLs itself at write p; the state recovered from its directory must equal the one recovered after the in-process cut. distinct_nontrivial = distinct recovered states"
+		cov["rule"] = "node 0 runs on a BadgerStore behind a wrapper counting its durable store writes (SetEvent/SetRound/SetBlock/SetFrame/SetPeerSet); for every write index p of the stated histories (static seed: every p; dynamic seeds: the stated stride) the node is cut before write p (all in-memory objects abandoned), its directory reopened by a fresh Node with Bootstrap=true through the real Init -> Hashgraph.Bootstrap -> setHeadAndSeq with a reset application, plus a clean close after the whole seed. Oracle: every block delivered before the cut is re-delivered identically and in order; the node knows exactly the events whose SetEvent had returned; head/seq = last persisted self-event; after a fair continuation its next self-event has index seq+1, is accepted by all, no two events of it share a height, and the C01/C02 monitors stay green; then the node is stopped cleanly and bootstrapped a second time and must know everything it knew before that stop (events, delivered blocks, head), continue without a self-fork. The crash points of the first history are repeated with fast-sync enabled at the restart (after Init the node is CatchingUp and runs the real Node.fastForward once: against its peers as they are, and with no peer answering); when no anchor is adopted the node must go on Babbling from its database and the whole oracle applies (restarts that do adopt an anchor are counted and only monitored for C01/C02). They are repeated once more with an event refused by the node before the crash (correctly signed by a validator key, right self-parent, wrong index). Crash-model validation: the same history in a child process that SIGKILLs itself at write p; the state recovered from its directory must equal the one recovered after the in-process cut. distinct_nontrivial = distinct recovered states"
 		rep.Assumptions = []string{"a crash is modelled as the prefix of committed Badger transactions (validated by the SIGKILL pass); OS/power failure with SyncWrites=false is outside", "multi-transaction store calls (SetPeerSet, Reset) are cut at their boundaries only"}
 		if tot.Ctr["points_with_blocks_before_crash"] < 5 && len(tot.Viol) == 0 {
 			rep.Finish()
